@@ -9,14 +9,14 @@ LEVEL_TEXT = ("Coq theorems over the SMTP session model for every configuration 
               "prefix are a prefix of the deliveries of the whole stream; cut_store_is_entitled; truncated_is_none); tied to the code by byte-level correspondence of random/garbage "
               "dialogues and of valid dialogues cut after every byte, with the sequencing/reply-shape specifications and the C01 "
               "entitlement evaluated on the implementation's answers as oracles")
-LEVEL_NOTE = ("Coq kernel; extraction; MAIL/RCPT argument parsers and header decoding are oracle tables from the real functions; idle "
+LEVEL_NOTE = ("Coq kernel; extraction; the MAIL patterns (as RE2 programs), the address parser and the policy are modelled and cross-checked per case; net.ParseIP and enmime header decoding are oracles; idle "
               "timeouts and TLS are not modelled (TLS disabled); panics inside third-party parsers are searched for by the garbage "
               "stream, not proved absent")
 DESIGN_REF = "DESIGN.md §4 C03"
 RULE = ("(a) dialogues with 35% garbage/out-of-order lines between steps (mixed case, short, unknown, unimplemented, AUTH PLAIN/LOGIN "
         "sub-dialogues, the two Unicode case folds, binary), SIZE parameters; (b) every byte prefix of valid dialogues; "
         "distinct = distinct input line; non-trivial = something stored or some 5xx reply")
-TRUSTED = ["oracle tables for MAIL/RCPT argument parsing and header decoding are computed by the driver with the real functions",
+TRUSTED = ["net.ParseIP verdicts and enmime header facts (From/To/Subject, parse error) are oracles supplied by the driver from the real functions",
            "loopback TCP with client half-close stands for a client that disconnects after byte k"]
 ASSUMPTIONS = ["store operations do not fail", "no idle timeout fires during a case"]
 NOT_PROVED = []
